@@ -114,6 +114,8 @@ ALL_FEATURES = [
                             # value:  hd :: st;  st :: (a) { .. hd(a - 1) .. }
     "distinct_generics",    # one generic function instantiated with a distinct type and with its
                             # base type, in different globals
+    "enum_compare",         # == / != between values of enums with several different payload types,
+                            # of optionals and of error unions
     "indirect_refs",        # variants may name a definition of another file *through a third file*:
                             # imp1.imp2.name
 ]
@@ -2237,6 +2239,59 @@ class _Gen:
         self.p.add(second)
         self.int_consts.extend([n1, n2])
 
+    def mk_enum_compare(self):
+        r = self.rnd
+        cands = [e for e in sorted(self.enums)
+                 if len(set(str(p) for _, p, _ in self.enums[e] if p is not None)) >= 2]
+        if not cands:
+            # an enum of its own with an aggregate, an array and scalars as payloads
+            while not self.structs:
+                self._plain_int_struct()
+            sn = r.choice(sorted(self.structs))
+            ename = self.fresh("E")
+            eit = Item(ename, "enum")
+            eit.deps.add(sn)
+            evariants = [("V0", None, None), ("V1", ("named", sn), None), ("V2", ("int", "u8"), None),
+                         ("V3", ("array", None, 3, "i64"), None), ("V4", ("int", "i64"), None)]
+            self.enums[ename] = evariants
+            eit.render = (lambda ref, ename=ename, sn=sn:
+                          "%s :: enum { V0, V1: %s, V2: u8, V3: [3]i64, V4: i64 };" % (ename, ref(sn)))
+            self.p.add(eit)
+            cands = [ename]
+        en = r.choice(cands)
+        variants = self.enums[en]
+        name = self.fresh("eq")
+        it = Item(name, "fn")
+        it.is_function = True
+        it.deps.add(en)
+        for _, payload, _ in variants:
+            if payload is not None and payload[0] == "named":
+                it.deps.add(payload[1])
+                it.deps |= self.p.by_name[payload[1]].deps
+
+        def mk_value(ref, i, seed):
+            vn, payload, _ = variants[i % len(variants)]
+            if payload is None:
+                return "%s.%s" % (ref(en), vn)
+            return "%s.%s.(%s)" % (ref(en), vn, self.value_text(payload, ref, seed))
+
+        picks = [r.randrange(len(variants)) for _ in range(3)]
+
+        def render(ref):
+            a = mk_value(ref, picks[0], "(a % 7)")
+            b = mk_value(ref, picks[1], "(a % 5)")
+            c = mk_value(ref, picks[2], "(a % 7)")
+            return ("%s :: (a: i64) -> i64 {\n    x : %s = %s;\n    y : %s = %s;\n    z : %s = %s;\n"
+                    "    n : i64 = 0;\n    if x == y { n = n + 1; }\n    if x != z { n = n + 2; }\n"
+                    "    if y == z { n = n + 4; }\n    if x == x { n = n + 8; }\n    n\n}"
+                    % (name, ref(en), a, ref(en), b, ref(en), c))
+
+        it.render = render
+        a1, a2 = r.randint(0, 9), r.randint(0, 9)
+        it.uses = lambda ref, tmp: ["emit(%s(%d));" % (ref(name), a1), "emit(%s(%d));" % (ref(name), a2)]
+        self.p.add(it)
+        self.int_fns.append(name)
+
     def build(self):
         self.add_prelude()
         r = self.rnd
@@ -2340,6 +2395,8 @@ class _Gen:
             menu.append(("alias_recursion", self.mk_alias_recursion, 1))
         if "distinct_generics" in f:
             menu.append(("distinct_generic", self.mk_distinct_generic, 1))
+        if "enum_compare" in f:
+            menu.append(("enum_compare", self.mk_enum_compare, 2))
         if "untyped_consts" in f:
             menu.append(("untyped_const", self.mk_untyped_const, 2))
         if "const_arrays" in f:
